@@ -56,6 +56,12 @@ def mk(name, contig, start, seq, cigar, rev, d, paired=False, read1=True, mate_s
         a.next_reference_start = mate_start
     a.set_tag('SM', 'c' + '1' * d['cell'])          # c1, c11, c111, ...: every name is a prefix of the next
     a.set_tag('RX', ''.join(LETTERS[x] for x in d['umi']))
+    if d.get('mx'):
+        a.set_tag('MX', d['mx'])                 # demultiplexing profile: scCHIC* = first base already trimmed
+    if d.get('lh'):
+        a.set_tag('lh', d['lh'])                 # ligation motif (copied to RZ by CHICMolecule.__finalise__)
+    if d.get('allele'):
+        a.set_tag('DA', 'ab'[d['allele'] - 1])   # allele tag used in the NLA hash with use_allele_tag
     return a
 
 
@@ -79,6 +85,8 @@ def build(kind, idx, d, rng):
     # anchor coordinate of R1's 5' end on the reference
     if kind == 'nla':
         a5 = site if strand == 0 else site + 4          # fwd: reference_start(-clip) = site; rev: reference_end(+clip) - 4 = site
+    elif kind == 'chic' and d.get('mx'):
+        a5 = site + 2 if strand == 0 else site - 1      # trimmed (MX scCHIC*): fwd site = start - 2 ; rev site = end + 1
     elif kind == 'chic':
         a5 = site + 1 if strand == 0 else site          # untrimmed: fwd site = start - 1 ; rev site = end
     else:
@@ -89,6 +97,8 @@ def build(kind, idx, d, rng):
         body = filler(rng, r1len + clip + qadd)
         if kind == 'nla':
             body = ('CATG' if motif_ok else 'CATA') + body[4:] if len(body) >= 4 else body
+            if d.get('how') == 'wrongend':
+                body = 'CATA' + body[4:-4] + 'CATG'                 # motif on the wrong end of a forward read
         cigar = ('%dS' % clip if clip else '') + cig(r1len)
         r1 = mk(name, d['contig'], r1s, body, cigar, False, d, paired, True, end - min(d['rlen'], flen) if paired else 0)
         r2 = None
@@ -101,6 +111,8 @@ def build(kind, idx, d, rng):
         body = filler(rng, r1len + clip + qadd)
         if kind == 'nla':
             body = body[:-4] + ('CATG' if motif_ok else 'TATG') if len(body) >= 4 else body
+            if d.get('how') == 'wrongend':
+                body = 'CATG' + body[4:-4] + 'TATG'                 # motif on the wrong end of a reverse read
         cigar = cig(r1len) + ('%dS' % clip if clip else '')
         r1 = mk(name, d['contig'], r1e - r1len, body, cigar, True, d, paired, True, start if paired else 0)
         r2 = None
@@ -123,16 +135,33 @@ def build(kind, idx, d, rng):
         r1.flag = (r1.flag | 0x8) & ~0x2 & ~0x20
         r1.next_reference_start = r1.reference_start
         r2 = u
+    if d.get('how') == 'homopolymer' and r1 is not None and len(r1.query_sequence) >= 20:
+        q = r1.query_sequence
+        r1.query_sequence = q[:1] + 'A' * 18 + q[19:]                  # 18 x A: CHICFragment rejects it (max_NUC_stretch)
+        r1.query_qualities = pysam.qualitystring_to_array('I' * len(q))
+    if paired and not half and d.get('samedir'):
+        # both mates on the same strand: Fragment.update_span takes (min start, max start) as the span ("unsafe")
+        r2.is_reverse = r1.is_reverse
+        r1.mate_is_reverse = r1.is_reverse
+        r2.mate_is_reverse = r1.is_reverse
+        start, end = min(r1.reference_start, r2.reference_start), max(r1.reference_start, r2.reference_start)
+    if d.get('how') == 'r1unmapped':        # a legal unmapped record: flag 0x4, no CIGAR, mapping quality 0
+        r1.is_unmapped = True
+        r1.cigarstring = None
+        r1.mapping_quality = 0
     if d.get('how') == 'r2only':        # R1 missing: not a valid NLA / CHiC fragment
         r1 = None
     return (r1, r2), start, end
 
 
-GEN_KEYS = ('flen', 'rlen', 'clip', 'how', 'indel', 'half', 'mq0')
+GEN_KEYS = ('flen', 'rlen', 'clip', 'how', 'indel', 'half', 'mq0', 'samedir', 'mx', 'lh', 'allele')
 
 
 def describe(d, start, end):
-    return {'cell': d['cell'], 'contig': d['contig'], 'strand': d['strand'], 'site': d['site'], 'start': start, 'end': end,
+    # with use_allele_tag the allele (key 'allele' present on every fragment of such a library) is part of the molecule
+    # identity: it is folded into the cell of the description
+    cell = d['cell'] * 10 + d['allele'] if 'allele' in d else d['cell']
+    return {'cell': cell, 'contig': d['contig'], 'strand': d['strand'], 'site': d['site'], 'start': start, 'end': end,
             'umi': list(d['umi']), 'valid': bool(d['valid']), 'dup': bool(d.get('dup', False)),
             'gen': {k: d[k] for k in GEN_KEYS if d.get(k)}}       # generator details, only used to rebuild the input for --replay
 
@@ -164,7 +193,7 @@ class Abort(BaseException):
     """Not an Exception subclass (like KeyboardInterrupt): raised by the input after some records."""
 
 
-def iterate(kind, reads, *, hd, radius, cap, pooling, sched, cache, tags, bam=None, reuse=False, shape='tuple'):
+def iterate(kind, reads, *, hd, radius, cap, pooling, sched, cache, tags, bam=None, reuse=False, shape='tuple', opts=None):
     """One run of the real MoleculeIterator. Returns (molecules, raised): molecules = list of
     {at, ov, recs:[{id, dup, rc, af, tf}]} (tags=True, after write_tags) or {at, ids} (tags=False).
     bam: path of a BAM file to read instead of the iterable (pysam.AlignmentFile -> MatePairIterator inside the
@@ -198,8 +227,24 @@ def iterate(kind, reads, *, hd, radius, cap, pooling, sched, cache, tags, bam=No
         margs['max_associated_fragments'] = cap
     fargs = {'umi_hamming_distance': hd, 'assignment_radius': radius}
     handle = pysam.AlignmentFile(bam) if bam else None
-    it = MoleculeIterator(handle if bam else source(), mcls, fcls, perform_qflag=False, pooling_method=pooling,
-                          check_eject_every=sched, molecule_class_args=margs, fragment_class_args=fargs)
+    opts = opts or {}
+    extra = {}
+    if opts.get('skip'):
+        extra['skip_contigs'] = {CONTIGS[opts['skip'] - 1]}
+    if opts.get('minmq'):
+        extra['min_mapping_qual'] = opts['minmq']
+    if opts.get('yinv'):
+        extra['yield_invalid'] = True
+    if opts.get('allele'):
+        fargs['use_allele_tag'] = True
+    if opts.get('maxfs'):
+        fargs['max_fragment_size'] = opts['maxfs']
+    seen_repr = []
+    if opts.get('cb'):
+        extra['progress_callback_function'] = lambda i, iterator, rds: seen_repr.append(len(repr(iterator)))
+    # perform_qflag=True is the default of the tagger: reads that already carry SM are left alone by the QueryNameFlagger
+    it = MoleculeIterator(handle if bam else source(), mcls, fcls, perform_qflag=bool(opts.get('qflag')), pooling_method=pooling,
+                          check_eject_every=sched, molecule_class_args=margs, fragment_class_args=fargs, **extra)
     out, raised = [], ''
     try:
         # histories on the same iterator object before the recorded pass: 'break' (True) = abandoned by the consumer after the
@@ -266,6 +311,8 @@ def gen_library(rng, tier):
     ulen = rng.choice([2, 3, 3, 4])
     ncontig = rng.choice([1, 1, 2, 3])
     base_sites = sorted(rng.sample(range(100, 100 + 30 * nsite + 60, 1), nsite))
+    mx = rng.choice(['', '', 'scCHIC384C8U3', 'scCHIC384C8U3l']) if kind == 'chic' else ''
+    use_allele = kind == 'nla' and rng.random() < 0.25
     if rng.random() < 0.4 and nsite >= 2:       # neighbouring sites: 1 .. radius+1 apart
         base_sites[1] = base_sites[0] + rng.choice([1, 2, 3, 4, max(1, radius), radius + 1])
     frs = []
@@ -320,6 +367,14 @@ def gen_library(rng, tier):
                             d['half'] = True                              # R2 unmapped
                         if rng.random() < 0.06:
                             d['mq0'] = True                               # mapping quality 0 (still a valid fragment)
+                        if paired and not d.get('half') and kind == 'nla' and rng.random() < 0.06:
+                            d['samedir'] = True                           # both mates on the same strand ("unsafe" span)
+                        if kind == 'chic' and mx:
+                            d['mx'] = mx
+                        if kind == 'chic' and rng.random() < 0.3:
+                            d['lh'] = rng.choice(['TA', 'AA', 'TT'])
+                        if use_allele:
+                            d['allele'] = rng.choice([0, 1, 1, 2])
                         r = rng.random()
                         if r < 0.06:
                             d['valid'], d['how'] = False, 'qcfail'
@@ -327,6 +382,14 @@ def gen_library(rng, tier):
                             d['valid'], d['how'] = False, 'nomotif'
                         elif r < 0.13 and kind != 'plain' and paired:
                             d['valid'], d['how'] = False, 'r2only'
+                        elif r < 0.15 and kind == 'nla' and flen >= 10 and not d.get('indel') and not d.get('clip'):
+                            d['valid'], d['how'] = False, 'wrongend'
+                        elif r < 0.17 and kind != 'plain':
+                            d['valid'], d['how'] = False, 'r1unmapped'
+                        elif r < 0.21 and kind == 'chic' and d['flen'] >= 20 and not paired and not d.get('indel'):
+                            d['valid'], d['how'] = False, 'homopolymer'
+                        elif r < 0.19 and kind == 'chic' and paired and not d.get('half'):
+                            d['valid'], d['samedir'] = False, True        # CHiC rejects pairs that do not point inwards
                         frs.append(d)
     dup_mode = rng.choice(['random', 'random', 'all', 'none', 'first'])
     for i, d in enumerate(frs):
@@ -336,8 +399,23 @@ def gen_library(rng, tier):
             d['dup'] = False
     if frs and rng.random() < 0.12:
         shift_to_zero(kind, frs, rng)
+    # iterator options on the property's path: the tagger's defaults (perform_qflag, yield_invalid, a progress callback) and
+    # its input filters (skip_contigs, min_mapping_qual)
+    opts = {'qflag': rng.random() < 0.5, 'cb': rng.random() < 0.3, 'allele': use_allele}
+    shape = rng.choice(['tuple', 'bare', 'list1'])
+    r = rng.random()
+    if r < 0.3:
+        opts['yinv'] = True
+    elif r < 0.45 and ncontig > 1:
+        opts['skip'] = rng.randint(1, ncontig)
+        shape = rng.choice(['tuple', 'list1'])
+    elif r < 0.6:
+        opts['minmq'] = 1
+        shape = rng.choice(['tuple', 'list1'])
+    if rng.random() < 0.15:
+        opts['maxfs'] = rng.choice([8, 12, 14])
     return {'kind': kind, 'hd': hd, 'radius': radius, 'cap': cap, 'pooling': pooling, 'readlen': rlen,
-            'dup_mode': dup_mode, 'shape': rng.choice(['tuple', 'bare', 'list1'])}, frs
+            'dup_mode': dup_mode, 'shape': shape, 'opts': opts}, frs
 
 
 def run_library(cfg, frs, rng, tid, retag=True, via_bam=False):
@@ -365,29 +443,38 @@ def run_library(cfg, frs, rng, tid, retag=True, via_bam=False):
                 r.query_name = 'f%d' % (i + 1)
                 r.is_duplicate = bool(d['dup'])
         reads.append(pair)
+    opts0 = cfg.get('opts') or {}
+    for d, pair, s, e in built:
+        # fragments removed by the iterator's input filters never become fragments: not valid for the truth
+        if (opts0.get('skip') == d['contig']) or (opts0.get('minmq') and (d.get('mq0') or d.get('half'))):
+            d['valid'] = False
+        if opts0.get('maxfs') and e - s > opts0['maxfs']:          # fragment size limit: larger fragments are not valid
+            d['valid'] = False
     frags = [describe(d, s, e) for d, pair, s, e in built]
     cache = 10000
     rounds = []
     shape = cfg.get('shape', 'tuple')
+    opts = cfg.get('opts') or {}
     r1, raised = iterate(kind, reads, hd=cfg['hd'], radius=cfg['radius'], cap=cfg['cap'], pooling=cfg['pooling'], sched=None,
-                         cache=cache, tags=True, shape=shape)
+                         cache=cache, tags=True, shape=shape, opts=opts)
     rounds.append(r1)
     if retag and not raised:
         bam = write_bam(os.path.join(os.getcwd(), 'retag_%d.bam' % tid), reads) if via_bam else None
         r2, raised2 = iterate(kind, reads, hd=cfg['hd'], radius=cfg['radius'], cap=cfg['cap'], pooling=cfg['pooling'], sched=None,
-                              cache=cache, tags=True, bam=bam, shape=shape)
+                              cache=cache, tags=True, bam=bam, shape=shape, opts=opts)
         if bam:
             os.remove(bam)
         rounds.append(r2)
         raised = raised2
     ev = {'ev': 'lib', 'tid': tid, 'kind': kind, 'hd': cfg['hd'], 'radius': cfg['radius'], 'cap': cfg['cap'], 'cache': cache,
-          'readlen': cfg['readlen'], 'pooling': cfg['pooling'], 'sched': -1, 'frags': frags, 'rounds': rounds, 'raised': raised}
+          'readlen': cfg['readlen'], 'pooling': cfg['pooling'], 'sched': -1, 'frags': frags, 'rounds': rounds, 'raised': raised,
+          'yinv': bool(opts.get('yinv')), 'opts': {k: v for k, v in opts.items() if v}}
     if cfg.get('reuse') and not raised:
         # history on ONE iterator object: first iteration abandoned after the first molecule handed out (needs an ejection or an
         # overflow before the end: check on every fragment, small cache), then a complete second iteration; reference = a fresh
         # iterator with the same settings
         rc = 2 * (max([e - s for d, pair, s, e in built] + [1]) + (0 if kind == 'nla' else cfg['radius']) + 8)
-        kw = dict(hd=cfg['hd'], radius=cfg['radius'], cap=cfg['cap'], pooling=cfg['pooling'], sched=0, cache=rc, tags=True, shape=shape)
+        kw = dict(hd=cfg['hd'], radius=cfg['radius'], cap=cfg['cap'], pooling=cfg['pooling'], sched=0, cache=rc, tags=True, shape=shape, opts=opts)
         mode = cfg['reuse'] if isinstance(cfg['reuse'], str) else ('break', 'error', 'complete')[tid % 3]
         fresh, ra = iterate(kind, reads, **kw)
         reused, rb = iterate(kind, reads, reuse=mode, **kw)
@@ -466,8 +553,27 @@ def directed_libraries():
     return out
 
 
+def probes(emit, tid):
+    """Newly reached code that the current tree fails on but that is outside C06's statement: recorded as observations
+    (@@NOTE), never judged.  A documented input form (bare AlignedSegment items) combined with the iterator's input filters."""
+    from singlecellmultiomics.molecule import MoleculeIterator, Molecule
+    from singlecellmultiomics.fragment import Fragment
+    d = {'cell': 1, 'umi': [0, 1, 2], 'dup': False}
+    for what, kw in (('bare_segment_items_with_skip_contigs', {'skip_contigs': {'chr11'}}),
+                     ('bare_segment_items_with_min_mapping_qual', {'min_mapping_qual': 1})):
+        reads = [mk('f1', 1, 100, 'ACGTACGT', '8M', False, d), mk('f2', 1, 100, 'ACGTACGTA', '9M', False, d)]
+        raised, n = '', -1
+        try:
+            n = len(list(MoleculeIterator(reads, Molecule, Fragment, perform_qflag=False, **kw)))
+        except Exception as ex:
+            raised = type(ex).__name__
+        tid += 1
+        emit({'ev': 'probe', 'tid': tid, 'what': what, 'raised': raised, 'molecules': n})
+    return tid
+
+
 def mode_c06(emit, tier, rng):
-    tid = 0
+    tid = probes(emit, 0)
     for cfg, frs in directed_libraries():
         tid += 1
         emit(run_library(dict(cfg, reuse=True), [dict(d) for d in frs], rng, tid))      # incl. the run under ejection
@@ -537,7 +643,7 @@ def run_schedules(kind, cfg, frs, rng, tid, scheds=None, poolings=(0, 1), model=
     for pooling in poolings:
         for sched in scheds:
             emits, raised = iterate(kind, reads, hd=cfg['hd'], radius=cfg['radius'], cap=0, pooling=pooling, sched=sched,
-                                    cache=cfg['cache'], tags=False, bam=bam, shape=shape)
+                                    cache=cfg['cache'], tags=False, bam=bam, shape=shape, opts=cfg.get('opts'))
             runs.append({'sched': -1 if sched is None else sched, 'pooling': pooling, 'raised': raised, 'emits': emits})
     if bam:
         os.remove(bam)
@@ -546,7 +652,7 @@ def run_schedules(kind, cfg, frs, rng, tid, scheds=None, poolings=(0, 1), model=
             for sched in [x for x in scheds if x is not None and x <= 2]:
                 mode = ('break', 'error', 'complete')[(tid + sched + pooling) % 3]
                 emits, raised = iterate(kind, reads, hd=cfg['hd'], radius=cfg['radius'], cap=0, pooling=pooling, sched=sched,
-                                        cache=cfg['cache'], tags=False, reuse=mode, shape=shape)
+                                        cache=cfg['cache'], tags=False, reuse=mode, shape=shape, opts=cfg.get('opts'))
                 runs.append({'sched': sched, 'pooling': pooling, 'raised': raised, 'emits': emits, 'reuse': 1, 'mode': mode})
     return {'ev': 'sched', 'tid': tid, 'kind': kind, 'hd': cfg['hd'], 'radius': cfg['radius'], 'cap': 0, 'cache': cfg['cache'],
             'readlen': cfg['readlen'], 'frags': frags, 'runs': runs, 'model': model or []}
@@ -583,8 +689,14 @@ def gen_sequence(rng, tier):
     for d in frs:
         if rng.random() < 0.05:
             d['mq0'] = True
+        if rng.random() < 0.05:
+            d['valid'], d['how'] = False, 'qcfail'        # dropped by the iterator: must never be emitted under any schedule
+    mx = rng.choice(['', 'scCHIC384C8U3']) if kind == 'chic' else ''
+    for d in frs:
+        if mx:
+            d['mx'] = mx
     return kind, {'hd': hd, 'radius': radius, 'cache': cache, 'readlen': rlen, 'zero': rng.random() < 0.12,
-                  'shape': rng.choice(['tuple', 'bare', 'list1'])}, frs
+                  'shape': rng.choice(['tuple', 'bare', 'list1']), 'opts': {'qflag': rng.random() < 0.5, 'cb': rng.random() < 0.3}}, frs
 
 
 def directed_sequences():
